@@ -283,6 +283,9 @@ let dispatch (w : string list) : string =
       | Err -> "err"
       | Panic -> "panic")
   | [ "adss.load_bytes"; b ] -> out_bytes (load_bytes (bytes_of_hex b))
+  | "selfcheck" :: _ -> "ok"
+  | [ "adss.load_u32"; b ] -> ( match load_u32 (bytes_of_hex b) with Some v -> "some " ^ string_of_int (int_of_n v) | None -> "none")
+  | [ "adss.store_bytes"; b ] -> hex_of_bytes (store_bytes (bytes_of_hex b))
   (* ---------------- star ---------------- *)
   | "star.scn" :: m :: e :: t :: rnd :: n :: rest -> (
       let m = bytes_of_hex m and e = bytes_of_hex e and t = n_of_string t in
